@@ -84,17 +84,17 @@ Templates == <<
   [n |-> "pattern-type", msg |-> "Match expression input has type",
    st |-> <<T("match "), M("5"), T(" { "), M("\"x\""), T(" -> 1, _ -> 2 }\n")>>],
   [n |-> "not-operand",  msg |-> "Conflicting types",
-   st |-> <<T("let v = "), M("not 3"), T("\n")>>],
+   st |-> <<T("let v = not "), M("3"), T("\n")>>],
   [n |-> "and-operand",  msg |-> "Operand must be `bool`",
    st |-> <<T("let v = 3 "), M("and"), T(" true\n")>>],
   [n |-> "unknown-import", msg |-> "Could not resolve identifier",
    st |-> <<M("use nosuchmodule"), T("\n")>>],
   [n |-> "try-toplevel", msg |-> "Cannot use `?` operator at the top level",
    st |-> <<T("let o: option<int> = option.some(1)\n"), M("o?"), T("\n")>>],
-  [n |-> "assign-literal", msg |-> "Can't assign to this",
-   st |-> <<M("3"), T(" = 4\n")>>],
-  [n |-> "index-unknown", msg |-> "Can't",
-   st |-> <<T("fn g(a) { "), M("a[0]"), T(" }\n")>>]
+  [n |-> "assign-function", msg |-> "Can't assign to this",
+   st |-> <<T("fn f() { 1 }\n"), M("f"), T(" = 4\n")>>],
+  [n |-> "index-unknown", msg |-> "Can't index expression without knowing type",
+   st |-> <<T("fn g(a) { "), M("a"), T("[0] }\n")>>]
 >>
 
 (* ---- contexts: where the slot is (pieces before and after the statement) ---- *)
@@ -194,9 +194,16 @@ Triggered(o) == \E j \in 1..Len(o.base) : PrefixOf(Templates[o.t].msg, o.base[j]
 ClauseStr(S) == (IF "InFile" \in S THEN "+InFile" ELSE "") \o (IF "OnBoundary" \in S THEN "+OnBoundary" ELSE "") \o
                 (IF "Shift" \in S THEN "+Shift" ELSE "") \o (IF "Covers" \in S THEN "+Covers" ELSE "")
 
-\* finding key of violated diagnostic j
+\* what the ASCII baseline of the same input already violates for diagnostic j (Shift holds trivially there)
+BaseViolations(o, j) == Violations([o EXCEPT !.v = 1, !.diags = o.base], j)
+
+\* finding key of violated diagnostic j:
+\*  - nothing beyond what the baseline already violates: the template's ASCII key
+\*  - the reported range is exactly what counting characters instead of bytes gives: one family
+\*  - otherwise a key of its own
 KeyOfViolation(o, j) ==
-  LET S == Violations(o, j) IN
-  IF o.v # 1 /\ CountsChars(o, j) THEN "C33|range-counts-chars-not-bytes|" \o ClauseStr(S \ {"Covers"})
-  ELSE "C33|" \o Templates[o.t].n \o "|" \o (IF o.v = 1 THEN "ascii" ELSE Contexts[o.c].n \o "|v" \o ToString(o.v)) \o "|" \o ClauseStr(S)
+  LET S == Violations(o, j)  B == BaseViolations(o, j) IN
+  IF S \subseteq B THEN "C33|" \o Templates[o.t].n \o "|ascii|" \o ClauseStr(S)
+  ELSE IF CountsChars(o, j) THEN "C33|range-counts-chars-not-bytes|" \o ClauseStr(S \ B)
+  ELSE "C33|" \o Templates[o.t].n \o "|" \o Contexts[o.c].n \o "|v" \o ToString(o.v) \o "|" \o ClauseStr(S)
 =============================================================================
